@@ -93,7 +93,7 @@ theorem shebangLen_le (src : List Char) : shebangLen src ≤ src.length := by
   unfold shebangLen
   split
   · rename_i rest
-    have := takeWhile_len_le (· ≠ '\n') ('!' :: rest)
+    have := lineCommentLen_le ('!' :: rest)
     simp only [List.length_cons] at this ⊢; omega
   · omega
 
